@@ -64,6 +64,15 @@ def for_expected(sel):
 
 def c05():
     out = []
+    M = I64_MAX
+    out.append(R("{% for i in (9223372036854775805..9223372036854775807) %}{{ i }}/{{ forloop.length }}/{{ forloop.last }} {% endfor %}", {"output": f"{M-2}/3/false {M-1}/3/false {M}/3/true "}, {}, None, "a range ending at i64::MAX"))
+    out.append(R("{% for i in (hi..hi) %}[{{ i }}]{% else %}none{% endfor %}", {"output": f"[{M}]"}, {"hi": M}, None, "the one-element range at i64::MAX"))
+    out.append(R("{% tablerow i in (9223372036854775806..9223372036854775807) %}{{ i }}{% endtablerow %}", {"output": f'<tr class="row1"><td class="col1">{M-1}</td><td class="col2">{M}</td></tr>'}, {}, None, "tablerow over a range ending at i64::MAX"))
+    for coll in ("blank", "empty", "nil", "b", "e", "n"):
+        d = {"n": None}
+        pre = "{% assign b = blank %}{% assign e = empty %}"
+        out.append(R(pre + "{%% for x in %s %%}X{%% else %%}none{%% endfor %%}|{%% tablerow x in %s %%}X{%% endtablerow %%}|" % (coll, coll), {"output": "none||"}, d, None, "nil and the empty / blank states are empty collections"))
+        out.append(R(pre + "{%% for o in (1..2) %%}{%% for x in %s limit: 2 offset: 1 reversed %%}X{%% else %%}-{%% endfor %%}{%% endfor %%}" % coll, {"output": "--"}, d, None, "nil / empty / blank inside an outer loop"))
     for n in range(0, 7 if THOROUGH else 5):
         arr = [10 * (k + 1) for k in range(n)]
         for offset in ((None,) + tuple(range(0, 9)) if THOROUGH else (None, 0, 1, 2, 5)):
@@ -269,6 +278,15 @@ def c07():
     out += c07_paths()
     out.append(R("{{ o.missing }}", {"error": True}, {"o": {"k": 1}}))
     out.append(R("{{ missing }}", {"error": True}, {}))
+    # the special member names are not variables: undefined `size` / `first` / `last` fail like any other undefined name,
+    # at top level, inside a loop scope and inside an include, and a real variable of that name is found
+    for nm in ("size", "first", "last"):
+        out.append(R("{{ %s }}" % nm, {"error": True}, {"other": 1}))
+        out.append(R("{%% for i in (1..2) %%}{{ %s }}{%% endfor %%}" % nm, {"error": True}, {"other": 1}))
+        out.append(R("{%% for i in (1..2) %%}{{ i }}:{{ %s }} {%% endfor %%}" % nm, {"output": "1:XL 2:XL "}, {nm: "XL"}))
+        out.append(R("{{ %s.size }}" % nm, {"error": True}, {}))
+        out.append(R("{{ list[%s] }}" % nm, {"error": True}, {"list": [1, 2, 3]}))
+        out.append(R("{%% include 'p' v: 1 %%}" , {"error": True}, {}, {"p": "{{ %s }}" % nm}))
     out.append(R("{{ o['k'] }}{{ o[key] }}", {"output": "11"}, {"o": {"k": 1}, "key": "k"}))
     for lit in (0, 1, -1, 42, I64_MAX, I64_MIN, I64_MAX - 1, I64_MIN + 1, 2 ** 31, -2 ** 31, 2 ** 53):
         out.append(R("{{ %d }}" % lit, {"output": str(lit)}, None, "integer literal prints as itself"))
@@ -477,6 +495,23 @@ def c15():
                 out.append(R("{{ a | divided_by: o }}", num(q), data))
                 if fits(q):
                     out.append(R("{{ a | modulo: o }}", num(a - q * o), data))
+    # zero (and other numbers) spelled as strings, on the float paths too
+    for zs, zv in (("0", 0.0), ("0.0", 0.0), ("-0.0", -0.0), ("0.5", 0.5), ("-2.5", -2.5), ("1e2", 100.0)):
+        d = {"s": zs, "h": 1.5}
+        import math as _mm
+        def fl(v):   # Rust's Display of an f64: whole numbers print without a fraction, negative zero as -0
+            v = float(v)
+            if v == int(v):
+                return "-0" if (v == 0 and _mm.copysign(1, v) < 0) else str(int(v))
+            return repr(v)
+        out.append(R("{{ s | plus: h }}", {"output": fl(zv + 1.5)}, d, None, "a numeric string is the number it spells (float path)"))
+        out.append(R("{{ h | plus: s }}", {"output": fl(1.5 + zv)}, d, None, "a numeric string is the number it spells (float path)"))
+        out.append(R("{{ s | times: 0.125 }}", {"one_of": [fl(zv * 0.125), fl(abs(zv * 0.125)) if zv * 0.125 == 0 else fl(zv * 0.125)]}, d, None, "numeric string times a float"))
+        out.append(R("{{ s | at_least: 3 }}", {"output": "3"} if zv < 3 else {"output": fl(zv)}, d, None, "numeric string in at_least"))
+        import math as _m
+        if "e" not in zs:
+            rnd = int(_m.floor(abs(zv) + 0.5)) * (1 if zv >= 0 else -1)
+            out.append(R("{{ s | floor }}|{{ s | ceil }}|{{ s | round }}", {"output": f"{_m.floor(zv)}|{_m.ceil(zv)}|{rnd}"}, d, None, "numeric strings into floor/ceil/round"))
     import math
     for k in range(-40, 41):
         x = k / 8.0
@@ -495,6 +530,7 @@ def c10():
         ("{% if x %}then branch{% else %}else branch{% endif %}{% unless x %}U{% endunless %}{% case x %}{% when 5 %}five{% else %}other{% endcase %}", {"x": 5}),
         ("{% tablerow i in (1..3) cols:2 %}cell {{ i }}{% endtablerow %}", {}),
         ("{% for i in (1..3) %}{% ifchanged %}{{ i | divided_by: 2 }}{% endifchanged %}{% endfor %}", {}),
+        ("{% for i in (1..3) %}{% ifchanged %}<a long ifchanged body number {{ i }}>{% endifchanged %}{% endfor %}", {}),
         ("{% capture c %}captured {{ x }}{% endcapture %}{% assign a = c | upcase %}{{ a }}{{ c }}", {"x": 1}),
         # elements that write AFTER a child of theirs raised an interrupt (ifchanged flushes its buffer, tablerow closes the cell)
         ("{% for i in (1..3) %}{% ifchanged %}{{ i }}{% continue %}{% endifchanged %}tail{% endfor %}.", {}),
@@ -538,6 +574,11 @@ def c04():
     out.append(R("{% assign x = 'outer' %}{% include 'p' x: x %}|{{ x }}", {"output": "[outer]|captured"}, {}, {"p": "{% capture x %}captured{% endcapture %}[{{ x }}]"}, "include arguments shadow variables the partial captures"))
     out.append(R("{% for x in (1..2) %}{% include 'p' x: x %}{% endfor %}", {"output": "[1][2]"}, {}, {"p": "{% assign x = 'assigned' %}[{{ x }}]"}, "a forwarded loop variable is still an argument"))
     out.append(R("{% include 'p' y: x %}|{{ y }}", {"output": "[data]|assigned"}, {"x": "data"}, {"p": "{% assign y = 'assigned' %}[{{ y }}]"}))
+    # every argument value is evaluated in the caller's scope, not on top of the earlier arguments
+    out.append(R("{% include 'p' x: 'A', y: x %}", {"output": "A|D"}, {"x": "D", "y": "E"}, {"p": "{{ x }}|{{ y }}"}, "a later argument reads the caller's binding"))
+    out.append(R("{% include 'p' x: y, y: x %}", {"output": "E|D"}, {"x": "D", "y": "E"}, {"p": "{{ x }}|{{ y }}"}, "arguments can swap two caller variables"))
+    out.append(R("{% include 'p' z: 'A', y: z %}", {"error": True}, {}, {"p": "{{ y }}"}, "an argument cannot name an earlier argument that is unbound at the call site"))
+    out.append(R("{% for x in (1..2) %}{% include 'p' x: 'A', y: x %} {% endfor %}", {"output": "A|1 A|2 "}, {}, {"p": "{{ x }}|{{ y }}"}))
     # a global assignment that shadows an object hides the object's members
     out.append(R("{% assign user = 'anonymous' %}{% if user.name %}has-name{% else %}no-name{% endif %}", {"output": "no-name"}, {"user": {"name": "bob"}}))
     # counters are shared with rendered partials
